@@ -1,5 +1,5 @@
 // c08.cpp — implementation side of the C08 correspondence: view::reduce with an arbitrary binary op
-// (add / multiply / subtract (non-commutative: pins the fold order) / maximum / minimum) through the
+// (add / multiply / subtract / maximum / minimum / lin (non-commutative, non-associative: pins the whole fold order)) through the
 // general entry point view::reduce(op, a, axis, dtype, initial, keepdims) and through the named entry
 // points reduce_add / reduce_subtract / ... / sum / prod / amax / amin; accumulate (cumsum / cumprod /
 // accumulate_subtract).
@@ -23,6 +23,15 @@
 namespace view = nmtools::view;
 using namespace vd;
 using nm::None; using nm::True; using nm::False;
+
+// a deliberately non-commutative, non-associative operation: every change of the ORDER in which the
+// elements enter the fold (not only of the seed) changes the result:  f(acc, x) = (3*acc + x) mod 1000003  (>= 0)
+struct lin_t {
+    template <typename T, typename U>
+    constexpr auto operator()(const T& t, const U& u) const {
+        ll r = (3 * (ll)t + (ll)u) % 1000003LL; return r < 0 ? r + 1000003LL : r;
+    }
+};
 
 template <size_t N> using fix_t = nm::array::ndarray_t<std::vector<ll>, std::array<size_t, N>>;
 
@@ -88,6 +97,7 @@ static std::string reduce_case(const Case& c, const arr_t& a) {
         auto run = [&](auto o) { return with_axis<false, MAXN>(akind, ax, init, kd, [o](const auto&... x) { return view::reduce(o, x...); }, a); };
         if (op == "add") return run(view::add_t<>{});
         if (op == "subtract") return run(view::subtract_t<>{});
+        if (op == "lin") return run(lin_t{});
         if constexpr (full) {
             if (op == "multiply") return run(view::multiply_t<>{});
             if (op == "maximum") return run(view::maximum_t<>{});
@@ -119,6 +129,7 @@ static std::string accum_case(const Case& c, const arr_t& a) {
     if (op == "add") return show(view::accumulate_add(a, axis));
     if (op == "multiply") return show(view::accumulate_multiply(a, axis));
     if (op == "subtract") return show(view::accumulate_subtract(a, axis));
+    if (op == "lin") return show(view::accumulate(lin_t{}, a, axis));
     if (op == "maximum") return show(view::accumulate_maximum(a, axis));
     if (op == "minimum") return show(view::accumulate_minimum(a, axis));
     return "unsupported";
